@@ -22,7 +22,7 @@ def instances(tier):
             out.append((B, 'VH_C01_boc_dag', [shape, o], {'weight': 5 if o >= 0 else 3000}))
     for o in ([0] if tier == 'quick' else [-1, 0, 7]):
         out.append((B, 'VH_C01_boc_dag', [2, o], {'weight': 1500}))
-    for k in ([3] if tier == 'quick' else [2, 3, 4]):
+    for k in ([3] if tier == 'quick' else [2, 3]):   # k = 4 did not finish in 10 min
         out.append((B, 'VH_C01_boc_wide', [k], {'weight': 1000 * k}))
     for (k, o) in ([(256, 7)] if tier == 'quick' else [(255, 0), (255, 7), (256, 0), (256, 7), (257, 2), (257, 5)]):
         out.append((B, 'VH_C01_boc_count', [k, o], {'weight': 2000}))
